@@ -36,6 +36,7 @@ CHECKS.update({
  'C06': A("The real Position / NedVelocity / BodyVelocity.compute_matrices and their Jacobian helpers on symbolic state, lever arm (none or symbolic), body rates (present/absent), both altitude modes: H x equals the eps^1 coefficient of z(pva) - z(correct_pva(pva, eps x)), z equals predicted minus measured against an independent oracle, R = sd^2 I of matching dimension, absent time returns None, simulated measurements with a symbolic error give residual -e.", "DESIGN.md 5/C06"),
  'C15': A("The real compute_increments_from_imu (both sensor types) on formal-interval samples of polynomial signals with symbolic vector coefficients against the Peano-Baker series of the exact attitude and body-frame velocity integral: for linear signals the rotation is exact through T^4, the velocity increment through T^2 and its only T^3 discrepancy is (1/6) a x (a x d); generic quadratic signals agree below the algorithm order; table shape for irregular symbolic stamps.", "DESIGN.md 5/C15"),
  'C14': A("The real EstimationModel / Parameters code with symbolic standard deviations whose signs decide the enable bits (bias, walk, noise fork on every path; scale-misalignment masks enumerated): dimensions of states/P/F/G/H/J/q/v mutually consistent, P = diag(sd^2), q and G map enabled walks to their bias states, state names = the simulator's parameter-table columns, output_matrix(r) x = (T-I) r + b, estimates accumulate, correct_increments undoes the noise-free simulated error for irregular stamps (both DataFrame and Series forms), coefficients of the random draws = noise/sqrt(dt), noise sqrt(dt), walk sqrt(dt); walk without bias raises.", "DESIGN.md 5/C14"),
+ 'C04': A("Bivariate jets (error scale eps, time step t) through two runs of the real kernel step, the real system_matrices and propagate_errors: for every unit direction of the 9 (7) error states and 6 sensor errors and each of 15 state components, the eps^1 t^1 coefficient of correct_pva(INS(t), eps x(t)) - truth(t) is identically zero for the velocity/gyro/accel columns and the position/attitude rows of the attitude columns, equals exactly (Omega_n x phi) x V in the velocity rows of the attitude columns, and vanishes at V = 0 for the position columns except d(gravity)/d(latitude) in [DV3, DR1] which is bounded; no-altitude mode under vertical equilibrium of the specific force; propagate_errors = one trapezoidal step of that model. Velocity-proportional residuals of the position columns are reported, not decided.", "DESIGN.md 5/C04"),
 })
 
 NA = {
